@@ -6,6 +6,7 @@
    instances that mention x only through another attribute are not included. *)
 From Coq Require Import List ZArith Bool.
 From SC Require Import Lazy Lazy_Proofs.
+From SC Require SuperIter SuperIter_Proofs.
 Import ListNotations.
 Local Open Scope Z_scope.
 
@@ -28,3 +29,23 @@ Example c11_example :
   let rev := snd (build (map (fun i => (r_id i, all_refs i)) pop)) in
   resolve_inverse isa pop rev 20 1 7 = [10; 11] /\ resolve_inverse isa pop rev 21 1 7 = [10].
 Proof. vm_compute. split; reflexivity. Qed.
+
+(* which inverse attributes an instance has entries for at all (SDAI_Application_instance::InitIAttrs over
+   superInvAttrIter, coq/SuperIter.v): exactly those the entity declares itself and those declared by an entity above it -
+   a parent, a grandparent, a second supertype, at any height.  (None: a supertype graph with a cycle, which EXPRESS forbids.) *)
+Theorem c11_every_inherited_inverse_has_an_entry : forall G fuel e l,
+  SuperIter.init_iattrs fuel G e = Some l ->
+  forall i, In i l <-> (In i (SuperIter.invs G e) \/
+                        exists a, SuperIter.above G (SuperIter.supers G e) a /\ In i (SuperIter.invs G a)).
+Proof. exact SuperIter_Proofs.init_iattrs_exact. Qed.
+Print Assumptions c11_every_inherited_inverse_has_an_entry.
+
+(* schemas/verif_inv.exp in small: 1 part (attributes 11 12), 2 special_part < 1 (21), 3 very_special_part < 2, 4 tagged (41),
+   5 tagged_part < 1, 4 *)
+Example c11_entries_example :
+  let G := {| SuperIter.s_supers := [(2, [1]); (3, [2]); (5, [1; 4])]%N;
+              SuperIter.s_invs := [(1, [11; 12]); (2, [21]); (4, [41])]%N |} in
+  SuperIter.init_iattrs 10 G 3%N = Some [21; 11; 12]%N /\
+  SuperIter.init_iattrs 10 G 5%N = Some [11; 12; 41]%N /\
+  SuperIter.init_iattrs 10 G 1%N = Some [11; 12]%N.
+Proof. vm_compute. repeat split. Qed.
